@@ -284,7 +284,22 @@ def hloopN (grow : Nat → Nat → Nat) (mk : Nat → Op) : (count : Nat) → HS
     | .bad => .bad
     | .panic => .panic
 
+def hseq3 (grow : Nat → Nat → Nat) (s : HSt) (o1 o2 o3 : Op) : HRes :=
+  match hstep1 grow s o1 with
+  | .ok s1 x1 =>
+    match hstep1 grow s1 o2 with
+    | .ok s2 x2 =>
+      match hstep1 grow s2 o3 with
+      | .ok s3 x3 => .ok s3 (x1 ++ " ; " ++ x2 ++ " ; " ++ x3)
+      | .bad => .bad
+      | .panic => .panic
+    | .bad => .bad
+    | .panic => .panic
+  | .bad => .bad
+  | .panic => .panic
+
 def hstep (grow : Nat → Nat → Nat) (s : HSt) : Op → HRes
+  | .reseq r a n b => hseq3 grow s (.all r a) (.add r n) (.all r b)
   | .addn r a d c => if c = 0 then .bad else hloopN grow (.add r) c s a d 0
   | .removen r a d c => if c = 0 then .bad else hloopN grow (.remove r) c s a d 0
   | op => hstep1 grow s op
